@@ -45,12 +45,23 @@ def make(rng, sid):
             new.append((path, kind, payload, u, g))
         attrs[trees.norm(path)] = (u, g, link)
     t.files = new
+    # relative directory arguments (after chdir to /): the checks must look at the consulted entry itself,
+    # not at what a relative name resolves to
+    relative = False
+    if shape == "readdirs" and rng.random() < 0.5 and all(d.startswith(b"/") and len(d) > 1 for d in p["dirs"]):
+        relative = True
+        _, u, e, nm, sfx = p["call"]
+        p["call"] = ("RD", u[1:], e[1:], nm, sfx)
+        p["dirs"] = [u[1:], e[1:]]
     restr = {"owner": rng.random() < 0.5, "group": rng.random() < 0.5, "nosymlink": rng.random() < 0.5}
     entry = None
     if p["call"][0] == "RD" and rng.random() < 0.3:
         entry = "RH"
     s = Scenario(sid, {"p": p, "tree": t, "attrs": attrs, "restr": restr, "entry": entry or p["call"][0], "shape": shape})
     t.emit(s)
+    if relative:
+        s.add("CD", h(b"/"))
+        s.meta["relative"] = True
     if restr["owner"]:
         s.add("G", "owner", UID)
     if restr["group"]:
@@ -91,10 +102,14 @@ def scenarios(tier, rng):
                             if rl:
                                 s.add("G", "nosymlink", 1)
                             s.add("LOGOPEN", 1)
-                            s.add("RF", 0, h(b"/etc/one.conf"), h(b"="), h(b"#"))
+                            name = b"/etc/one.conf"
+                            if i % 2 == 0:
+                                s.add("CD", h(b"/etc"))
+                                name = rng.choice([b"one.conf", b"./one.conf", b"../etc/one.conf"])
+                            s.add("RF", 0, h(name), h(b"="), h(b"#"))
                             s.add("RAW", 0)
                             s.add("G", "reset")
-                            s.add("RF", 10, h(b"/etc/one.conf"), h(b"="), h(b"#"))
+                            s.add("RF", 10, h(name), h(b"="), h(b"#"))
                             s.add("RAW", 10)
                             out.append(s)
     return out
@@ -186,7 +201,7 @@ def histogram(s, lines):
         return ["single_file"]
     if "restr" not in m:
         return ["corpus"]
-    ks = ["entry_" + m["entry"], "restr_" + "".join(k[0] for k, v in sorted(m["restr"].items()) if v)]
+    ks = ["entry_" + m["entry"], "restr_" + "".join(k[0] for k, v in sorted(m["restr"].items()) if v), "relative_dirs" if m.get("relative") else "absolute_dirs"]
     res = [l for l in lines if l.startswith(("rf ", "rc ", "rd ", "rh "))]
     if res:
         ks.append("first_" + res[0].split()[1])
